@@ -77,6 +77,9 @@ func (r *Reqs) Previous(ctx context.Context, p module.Version) (module.Version, 
 			selected = v.Version
 		}
 	}
+	if selected == "" {
+		selected = "none"
+	}
 	return module.Version{Path: p.Path, Version: selected}, nil
 }
 
